@@ -7,6 +7,7 @@
 
 /* ================================================================== PRNG */
 prng_t G;
+extern const uint8_t *FUZZ_DATA; extern size_t FUZZ_LEN, FUZZ_POS;
 static uint64_t splitmix(uint64_t *x)
 {
         uint64_t z = (*x += 0x9E3779B97F4A7C15ULL);
@@ -25,12 +26,23 @@ void pr_seed(prng_t *p, uint64_t a, uint64_t b)
 }
 uint64_t pr_next(prng_t *p)
 {
+        if (FUZZ_DATA && p == &G) { uint64_t v = 0; for (int i = 0; i < 8 && FUZZ_POS < FUZZ_LEN; i++) v |= (uint64_t)FUZZ_DATA[FUZZ_POS++] << (8 * i); return v; }
         uint64_t s = p->s;
         s ^= s >> 12; s ^= s << 25; s ^= s >> 27;
         p->s = s;
         return s * 2685821657736338717ULL;
 }
-unsigned pr_n(prng_t *p, unsigned n) { return n ? (unsigned)((pr_next(p) >> 11) % n) : 0; }
+const uint8_t *FUZZ_DATA; size_t FUZZ_LEN, FUZZ_POS;
+unsigned pr_n(prng_t *p, unsigned n)
+{
+        if (FUZZ_DATA && p == &G) {      /* libFuzzer front-end: every generator decision is read from the fuzz input (0 once it is exhausted) */
+                unsigned v = 0;
+                if (FUZZ_POS < FUZZ_LEN) v = FUZZ_DATA[FUZZ_POS++];
+                if (n > 256 && FUZZ_POS < FUZZ_LEN) v |= (unsigned)FUZZ_DATA[FUZZ_POS++] << 8;
+                return n ? v % n : 0;
+        }
+        return n ? (unsigned)((pr_next(p) >> 11) % n) : 0;
+}
 bool pr_pct(prng_t *p, unsigned pct) { return pr_n(p, 100) < pct; }
 
 /* ======================================================== bookkeeping */
@@ -152,6 +164,7 @@ void viol(const char *prop, const char *key, const char *fmt, ...)
                 return;
         }
         nviol_total++;
+        if (ABORT_ON_VIOL) { fprintf(stderr, "VIOLATION %s/%s: %s\n", prop, key, msg); abort(); }
         if (VERBOSE) fprintf(stderr, "VIOLATION %s/%s seed=%llu case=%ld step=%ld: %s\n", prop, key,
                              (unsigned long long)CUR_SEED, CUR_CASE, CUR_STEP, msg);
         if (cur_failed) return;               /* one record per case */
@@ -604,6 +617,8 @@ static void json_str(FILE *f, const char *s)
         }
         fputc('"', f);
 }
+bool ABORT_ON_VIOL;
+void verif_case_reset(void);
 static void case_reset(void)
 {
         cur_failed = false; CUR_STEP = 0; PHASE = 0; READ_GATE = true;
@@ -614,6 +629,8 @@ static void case_reset(void)
         in_reset(); out_reset(); units_reset(); ev_reset();
         prev_pair = -1;
 }
+
+void verif_case_reset(void) { case_reset(); }
 
 int verif_main(int argc, char **argv)
 {
